@@ -15,6 +15,16 @@ LEVEL = "model_checking"
 BASE = 2  # base promises p0, p1; derived promises get increasing ids
 
 
+class PV:
+    """Model-side stand-in for 'promise number i used as a plain VALUE' (a promise settled with a promise does not adopt it)."""
+
+    def __init__(self, i):
+        self.i = i
+
+    def __repr__(self):
+        return f"<P{self.i}>"
+
+
 class E(Exception):
     def __init__(self, tag):
         super().__init__(tag)
@@ -164,6 +174,14 @@ class Impl:
         self.log = []
 
     def val(self, v):
+        from redun.promise import Promise
+
+        if isinstance(v, Promise):
+            return f"<P{self.ps.index(v)}>"
+        if isinstance(v, list):
+            return "[" + ", ".join(self.val(x) for x in v) + "]"
+        if isinstance(v, tuple):
+            return "(" + ", ".join(self.val(x) for x in v) + ("," if len(v) == 1 else "") + ")"
         return repr(v)
 
     def then(self, p, ok_act, err_act, label):
@@ -237,6 +255,12 @@ def apply(obj, op, label):
             obj.settle(obj.ps[op[1]], "ok", "v")
         else:
             obj.ps[op[1]].do_resolve("v")
+    elif k == "resolvep":
+        # settle promise op[1] DIRECTLY with promise op[2] as its value: that is a settlement like any other (first one wins, callbacks run)
+        if isinstance(obj, Model):
+            obj.settle(obj.ps[op[1]], "ok", PV(op[2]))
+        else:
+            obj.ps[op[1]].do_resolve(obj.ps[op[2]])
     elif k == "reject":
         if isinstance(obj, Model):
             obj.settle(obj.ps[op[1]], "err", E("e"))
@@ -256,6 +280,8 @@ def op_label(op):
     if op[0] == "then":
         f = lambda a: "-" if a is None else a[0] + "".join(map(str, a[1:]))
         return f"t{op[1]}{f(op[2])}/{f(op[3])}"
+    if op[0] == "resolvep":
+        return f"rsp{op[1]}{op[2]}"
     return op[0][0] + "".join(map(str, op[1])) if op[0] in ("all", "wait") else op[0][:3] + str(op[1])
 
 
@@ -264,6 +290,7 @@ def alphabet(tier):
     for p in range(BASE):
         ops.append(("resolve", p))
         ops.append(("reject", p))
+    ops.append(("resolvep", 0, 1))
     for a in [("ret",), ("raise",), ("retp", 1), ("res", 1), ("rej", 1), ("reg", 0)]:
         ops.append(("then", 0, a, None))
     for a in [("ret",), ("raise",), ("reg", 0)]:
